@@ -553,6 +553,8 @@ register(PropertySpec(
              "two wrapped values are the same exactly when their identifiers agree (equality = the identifier, which the hash is)"),
         Rule("KEYS-DERIVED-FRESH", _lazy("cacheidx", "rule_keys_derived_fresh"), 1,
              "whatever the index keeps that was computed from its key list is recomputed when the key list is assigned"),
+        Rule("NEG-IN-PLACE", _lazy("negation", "rule_neg_in_place"), 1,
+             "not_(c) leaves c (and the result caches filled for c) what they were: a leaf negated in place keeps caches that hold the truth values of its old meaning"),
     ],
     explanation="Decides that the runtime switch governs reads and writes consistently: the asymmetric state (reads "
                 "unguarded, writes guarded) changes results because an empty lookup marks everything covered. Not "
